@@ -61,10 +61,11 @@ PROPS = {
     },
     'C03': {
         'crate': 'biscuit-auth',
-        'quick': [r'c03_trust_\w+'],
+        'quick': [r'c03_trust_\w+', r'c03_load_\w+'],
         'thorough': [],
+        'per_harness': {r'c03_load_\w+': {'unwindset': 'memcmp.0:40'}},
         'cap': {'quick': 400, 'thorough': 1200},
-        'functions': ['datalog::origin::TrustedOrigins::{default,from_scopes,contains}', 'datalog::origin::Origin::{insert,is_superset}'],
+        'functions': ['datalog::origin::TrustedOrigins::{default,from_scopes,contains}', 'datalog::origin::Origin::{insert,is_superset}', 'token::builder::authorizer::load_and_translate_block (block-level scopes)', 'token::builder::Scope::{convert,convert_from}', 'token::public_keys::PublicKeys::{insert,get_key}'],
         'bounds': 'scope lists of length 0..3 over {authority, previous, key 0..2}; current block in 0..=5 or the authorizer; 3 keys signing 1, 2 and 0 blocks (ids 1..=5, symbolic); '
                   'probe origins of one and two block ids; unwind 9',
         'out': 'the end-to-end comparison authorize(token) vs authorize(token + block); provenance of rule application (Rule::apply) and the visibility filter; loading of blocks into the authorizer',
@@ -132,10 +133,10 @@ PROPS = {
     },
     'C07': {
         'crate': 'biscuit-auth',
-        'quick': [r'c07_\w+', r'c01_walk_(v0_v1ext|v0_v0ext_legacy)', r'c02_append_third_party_\w+'],
+        'quick': [r'c07_\w+', r'c03_load_third_party_block_scope', r'c01_walk_(v0_v1ext|v0_v0ext_legacy)', r'c02_append_third_party_\w+'],
         'thorough': [r'c01_walk_v0_v1ext_v1'],
         'cap': {'quick': 600, 'thorough': 1800},
-        'per_harness': {r'c0[1278]_\w+': {'unwindset': 'memcmp.0:200'}},
+        'per_harness': {r'c0[1278]_\w+': {'unwindset': 'memcmp.0:200'}, r'c03_load_\w+': {'unwindset': 'memcmp.0:40'}},
         'functions': ['crypto::{verify_block_signature,verify_external_signature,generate_external_signature_payload_v1}', 'token::third_party::ThirdPartyRequest::from_container', 'format::SerializedBiscuit::append_serialized'],
         'bounds': 'as C01 / C02 for blocks carrying an external signature: acceptance requires the stated external key to accept (payload + signature of the actual previous block, version 1); the request carries exactly the last signature; the token-level signature of a third-party block covers the external signature bytes',
         'stubs': ['signature oracle', 'alloc::fmt::format'],
